@@ -255,6 +255,22 @@ def judge(pid, seed, tier):
                     if not same(r, r2):
                         add(nmd, [y, z], [r, r2], "named class equals the family member")
         if pid == "C04":
+            # vectors: the call raises iff SOME observation is outside the domain (lifting theorem C04_array_err)
+            for cls, dom, nm in ((HomogeneousExpectileScore, hes_in, "HomogeneousExpectileScore"), (HomogeneousQuantileScore, hqs_in, "HomogeneousQuantileScore")):
+                for h in degs:
+                    sf = cls(degree=h, level=0.3)
+                    good = [(y, z) for y, z in itertools.product(pts, pts) if dom(h, y, z)]
+                    badp = [(y, z) for y, z in itertools.product(pts, pts) if not dom(h, y, z)]
+                    if not good or not badp:
+                        continue
+                    for _ in range(6):
+                        g1, g2, b = rng.choice(good), rng.choice(good), rng.choice(badp)
+                        for arr in ([g1, b], [b, g1], [g1, b, g2], [b, b, g1]):
+                            tried += 1
+                            r = real(lambda: sf.score_per_obs([p[0] for p in arr], [p[1] for p in arr]))
+                            if r[0] != "V":
+                                add(nm + ".score_per_obs", dict(degree=h, level=0.3, y=[p[0] for p in arr], z=[p[1] for p in arr]), r,
+                                    "a vector containing a pair outside the documented domain must raise ValueError")
             for y, z in itertools.product([0.0, 0.2, 0.5, 1.0], [0.01, 0.2, 0.5, 0.99]):
                 tried += 1
                 r = real(lambda: LogLoss().score_per_obs([y], [z]))
@@ -287,8 +303,13 @@ def judge(pid, seed, tier):
             pos = rng.random() < 0.6
             ys = [rng.randint(1 if pos else -4, 6) if intdata else rng.choice([0.5, 1.0, 1.5, 2.0, 3.25, -1.0 if not pos else 4.0, -2.5 if not pos else 0.25]) for _ in range(k)]
             ws = [rng.choice([0.25, 0.5, 1.0, 1.25, 2.0, 2.75, 3.0]) for _ in range(k)]
-            yarr = np.asarray(ys, dtype=np.int64 if intdata else float)
             cs = [-3, -1, 0, 1, 2, 3, 4, 5, -2.5, -0.5, 0.5, 1.5, 2.5, 3.5, 7.0]
+            if rng.random() < 0.25:
+                # large common offset, small spread
+                ys = [v + 1e6 for v in ys]
+                cs = [c + 1e6 for c in cs]
+                pos = True
+            yarr = np.asarray(ys, dtype=np.int64 if intdata else float)
             kind = rng.choice(["mean", "expectile", "quantile"])
             if kind == "mean":
                 h = rng.choice([2.0, 2.0, 1.0, 0.0, 1.5, 3.0, -1.0, 4.0, 2.5])
@@ -408,6 +429,38 @@ def judge(pid, seed, tier):
                         if rt[0] == "val" and rc[0] == "val" and rc[1] < rt[1] - 1e-9:
                             add("ElementaryScore.__call__", dict(eta=eta, functional=f, level=a, y=ys, w=ws, functional_value=t, other_constant=c), [rt, rc],
                                 "average elementary score is minimised by the sample's functional (also when eta is an observation)")
+    # ---- glue around the translated core (np.asarray / validate_2_arrays): mixed float precision and purity
+    if pid in ("C04", "C05", "C08", "C14", "C15"):
+        y32 = np.array([1.0000001, 2.5, -0.75, 3.0000002], dtype=np.float32)
+        zs = [np.array([float(v) - 1e-9 for v in y32]), np.array([float(v) + 1e-9 for v in y32]), np.array([float(v) for v in y32])]
+        calls = []
+        if pid == "C08":
+            for f in ("mean", "median", "expectile", "quantile"):
+                calls.append((f"identification_function[{f}]", lambda y, z, f=f: identification_function(y, z, functional=f, level=0.3)))
+        elif pid == "C15":
+            for f in ("mean", "quantile", "expectile"):
+                calls.append((f"ElementaryScore[{f}]", lambda y, z, f=f: ElementaryScore(2.5, f, 0.3).score_per_obs(y, z)))
+        else:
+            calls.append(("SquaredError", lambda y, z: SquaredError().score_per_obs(y, z)))
+            calls.append(("PinballLoss(0.3)", lambda y, z: PinballLoss(0.3).score_per_obs(y, z)))
+            calls.append(("HES(3,0.2)", lambda y, z: HomogeneousExpectileScore(3, 0.2).score_per_obs(y, z)))
+            calls.append(("HQS(3,0.7)", lambda y, z: HomogeneousQuantileScore(3, 0.7).score_per_obs(y, z)))
+        for nm, fn in calls:
+            for z in zs:
+                tried += 1
+                exact = np.asarray(fn(y32.astype(np.float64), z.copy()), dtype=float)      # the same real numbers, all float64
+                y0, z0 = y32.copy(), z.copy()
+                got = np.asarray(fn(y32, z), dtype=float)
+                # power-type scores of float32 input are computed in float32 by numpy: only rounding-free formulas are compared
+                if not nm.startswith(("HES", "HQS")) and not np.allclose(got, exact, rtol=1e-6, atol=1e-12):
+                    add(nm, dict(y_float32=[float(v) for v in y32], z_float64=z0.tolist()), [got.tolist(), exact.tolist()],
+                        "float32 observations with float64 predictions give the values of the same real numbers")
+                if y32.tobytes() != y0.tobytes() or z.tobytes() != z0.tobytes():
+                    add(nm, dict(y=y0.tolist(), z=z0.tolist()), [y32.tolist(), z.tolist()], "the caller's arrays are not modified")
+                    y32, z = y0, z0
+                again = np.asarray(fn(y32, z), dtype=float)
+                if not np.array_equal(again, got):
+                    add(nm, dict(y=y0.tolist(), z=z0.tolist()), [got.tolist(), again.tolist()], "a second call with the same arrays gives the same values")
     return dict(failures=fails, tried=tried)
 
 
